@@ -461,10 +461,20 @@ def _side(cond, what):
         CUR.side_condition(cond, what)
 
 
+def _poison(what):
+    """An undefined real result (x/0, log(0), sqrt(-1) on constants) in exact-real mode: an
+    unconstrained fresh value.  Sound for 'the result does not depend on it' reasoning: code that
+    masks the value out is unaffected, code that lets it through yields a satisfiable disagreement."""
+    if CUR is None:
+        raise ZeroDivisionError(what)
+    CUR.note("undefined real operation modelled as an arbitrary value: " + what)
+    return CUR.fresh("undef")
+
+
 def _sdiv(a: T, b: T) -> T:
     if b.op == "const":
         if b.val == 0:
-            raise ZeroDivisionError("symbolic division by constant zero")
+            return _poison("division by constant zero")
         return tm.div(a, b)
     _side(tm.ne(b, tm.ZERO), "div")
     return tm.div(a, b)
@@ -473,7 +483,7 @@ def _sdiv(a: T, b: T) -> T:
 def slog(a: T) -> T:
     if a.op == "const":
         if a.val <= 0:
-            raise ValueError("log of a non-positive constant in exact-real mode")
+            return _poison("log of a non-positive constant")
     else:
         _side(tm.gt(a, tm.ZERO), "log")
     return tm.log(a)
@@ -482,7 +492,7 @@ def slog(a: T) -> T:
 def ssqrt(a: T) -> T:
     if a.op == "const":
         if a.val < 0:
-            raise ValueError("sqrt of a negative constant in exact-real mode")
+            return _poison("sqrt of a negative constant")
     else:
         _side(tm.ge(a, tm.ZERO), "sqrt")
     return tm.sqrt(a)
